@@ -181,9 +181,15 @@ def work_sock(chunk, st):
 
 def work_cli(chunk, st):
     for pre, bl, eol in chunk:
-        for fmt in ('text', 'json'):
-            srv = P.Server(banner=bl.encode('latin1') if '\x80' in bl else bl.encode(), pre_banner=[p.encode() for p in pre], line_end=eol.encode())
-            res = H.audit(srv, opts=['-n', '--skip-rate-test'] + (['-j'] if fmt == 'json' else []))
+        for fmt in ('text', 'json', 'client-text', 'client-json'):
+            raw_banner = bl.encode('latin1') if '\x80' in bl else bl.encode()
+            if fmt.startswith('client'):
+                cli = P.Client(banner=raw_banner, pre_banner=[p.encode() for p in pre], line_end=eol.encode())
+                res = H.client_audit(cli, opts=['-n'] + (['-j'] if fmt == 'client-json' else []))
+                fmt = fmt[7:]
+            else:
+                srv = P.Server(banner=raw_banner, pre_banner=[p.encode() for p in pre], line_end=eol.encode())
+                res = H.audit(srv, opts=['-n', '--skip-rate-test'] + (['-j'] if fmt == 'json' else []))
             want, wheader = RB.scan([RB.decode_line(p.encode()) for p in pre] + [RB.decode_line(bl.encode('latin1') if '\x80' in bl else bl.encode())])
             st.execution(res.world, outcome=('cli', res.status, fmt), root=('cli', pre, bl, eol, fmt), nontrivial=('cli', pre, bl, eol, fmt))
             if res.status not in (0, 2, 3):
